@@ -523,6 +523,52 @@ func c14Case(w *core.Worker, i int) {
 			if !same(tab0, tab2) {
 				viol("cached-table-changed", "the table differs after ROLLBACK of the only change")
 			}
+			// integer operands outside ordinary function calls (analytic-function arguments, FETCH positions, LIMIT/OFFSET):
+			// as literals of one parsed tree executed twice, and as variables that are read again afterwards
+			exec("VAR @n14 := 2; VAR @m14 := 1; VAR @g14;")
+			exec("DECLARE curp14 CURSOR FOR SELECT id FROM t ORDER BY id; OPEN curp14;")
+			n0 := exec("SELECT @n14, @m14;")
+			for _, pair := range [][2]string{
+				{"SELECT id, NTH_VALUE(c1, 2) OVER (ORDER BY id), NTILE(2) OVER (ORDER BY id), LAG(c1, 2, 0) OVER (ORDER BY id), LEAD(id, 1, 7) OVER (ORDER BY id) FROM t;", "SELECT id, NTH_VALUE(c1, @n14) OVER (ORDER BY id), NTILE(@n14) OVER (ORDER BY id), LAG(c1, @n14, @m14) OVER (ORDER BY id), LEAD(id, @m14, @n14) OVER (ORDER BY id) FROM t;"},
+				{"FETCH ABSOLUTE 2 curp14 INTO @g14; FETCH RELATIVE 1 curp14 INTO @g14; FETCH RELATIVE -2 curp14 INTO @g14; SELECT @g14;", "FETCH ABSOLUTE @n14 curp14 INTO @g14; FETCH RELATIVE @m14 curp14 INTO @g14; FETCH RELATIVE -@n14 curp14 INTO @g14; SELECT @g14;"},
+				{"SELECT id FROM t ORDER BY id LIMIT 2 OFFSET 1; SELECT id FROM t ORDER BY id LIMIT 50 PERCENT; SELECT id FROM t ORDER BY id FETCH FIRST 2 ROWS ONLY;", "SELECT id FROM t ORDER BY id LIMIT @n14 OFFSET @m14; SELECT id FROM t ORDER BY id LIMIT @n14 + 48 PERCENT;"},
+				{"SELECT id, SUM(id) OVER (ORDER BY id ROWS BETWEEN 2 PRECEDING AND 1 FOLLOWING), LISTAGG(c1, ',') WITHIN GROUP (ORDER BY id) OVER () FROM t;", "SELECT SUBSTRING(c1 FROM @m14 FOR @n14), SUBSTR(c1, @m14, @n14), LPAD(c1, @n14 + 3, 'x'), ROUND(id / 3, @n14) FROM t;"},
+			} {
+				for _, text := range pair {
+					parsed, _, perr := parser.Parse(text, "", false, false)
+					if perr != nil {
+						continue
+					}
+					d0 := astDigest(parsed)
+					r1 := s.ExecStmts(parsed)
+					exec("SELECT 41 + 1, 7 * 6, 1000 - 958;") // integers allocated in between
+					d1 := astDigest(parsed)
+					r2 := s.ExecStmts(parsed)
+					d2 := astDigest(parsed)
+					stmts = append(stmts, "(parsed once, executed twice) "+text)
+					if d0 != d1 || d1 != d2 {
+						viol("syntax-tree-modified", "the structural digest of "+truncateStr(text, 80)+" changed when it was executed")
+					}
+					if r1.Err == nil && !same(r1, r2) {
+						viol("repeat-differs:same-tree", "executing "+truncateStr(text, 80)+" twice gave different results")
+					}
+					for _, rr := range []core.ExecResult{r1, r2} {
+						for _, v := range rr.Views {
+							for _, row := range v.Rows {
+								for _, c := range row {
+									if isSentinel(c) {
+										viol("use-after-discard", "a discarded value was returned by "+truncateStr(text, 80))
+									}
+								}
+							}
+						}
+					}
+				}
+			}
+			if n1 := exec("SELECT @n14, @m14;"); !same(n0, n1) {
+				viol("variable-changed", fmt.Sprintf("variables used as operands were %v and are now %v", resText(n0), resText(n1)))
+			}
+			exec("CLOSE curp14; DISPOSE CURSOR curp14; DISPOSE @n14; DISPOSE @m14; DISPOSE @g14;")
 			// rows derived from the cached table before a change (a view materialised from it, an open cursor, a variable)
 			// are only read by the later UPDATE of the table: they keep their values
 			exec("UPDATE t SET c1 = c1 WHERE id = 1;") // the table is now held as an updatable cached copy
